@@ -13,8 +13,9 @@ use lightning_signer::bitcoin::secp256k1::{PublicKey, Secp256k1, SecretKey};
 use lightning_signer::bitcoin::transaction::Version;
 use lightning_signer::bitcoin::{Network, ScriptBuf, Transaction, TxOut};
 use lightning_signer::chain::tracker::Headers;
-use lightning_signer::channel::{ChannelBase, ChannelId, ChannelSlot};
+use lightning_signer::channel::{Channel, ChannelBase, ChannelId, ChannelSlot};
 use lightning_signer::lightning::ln::chan_utils::build_commitment_secret;
+use lightning_signer::lightning::sign::ChannelSigner;
 use lightning_signer::lightning::types::payment::PaymentHash;
 use lightning_signer::node::{Node, NodeConfig, NodeServices, SpendType};
 use lightning_signer::persist::Persist;
@@ -57,13 +58,18 @@ pub struct Sim {
     pub last_pre_commit: BTreeMap<String, (u64, Vec<u8>)>,
     /// counterparty commitment numbers that were signed for a rogue point
     pub rogue: std::collections::BTreeSet<u64>,
+    /// the ready channel has a permanent id different from its initial id
+    pub perm: bool,
 }
 
-fn services(persister: Arc<dyn Persist>, clock: Arc<ManualClock>) -> NodeServices {
+fn services(persister: Arc<dyn Persist>, clock: Arc<ManualClock>, perm: bool) -> NodeServices {
     // policy numbers mirrored by lean/VlsModel/Drv/NodeReq.lean (cfg, vc0)
     let mut policy = make_default_simple_policy(Network::Testnet);
     policy.global_velocity_control = VelocityControlSpec { limit_msat: 100_000_000, interval_type: VelocityControlIntervalType::Hourly };
     policy.max_invoices = 6;
+    // the channel map may hold the ready channel and three stubs (a channel with a permanent id is in
+    // the map under both ids); mirrored by cfg.maxChannels = 4 of the model
+    policy.max_channels = if perm { 5 } else { 4 };
     NodeServices {
         validator_factory: Arc::new(SimpleValidatorFactory::new_with_policy(policy)),
         starting_time_factory: make_genesis_starting_time_factory(Network::Testnet),
@@ -146,6 +152,14 @@ impl Sim {
 
     /// `perm`: the channel is set up with a permanent id that differs from its initial id (LDK-style flow)
     pub fn new_with(perm: bool) -> Sim {
+        Sim::new_world(if perm { "world perm" } else { "" })
+    }
+
+    /// `world perm`: see `new_with`; `world fresh`: the channel is set up but its initial holder
+    /// commitment is neither validated nor activated (ops `vh`/`vh1` at number 0, then `act`)
+    pub fn new_world(first_op: &str) -> Sim {
+        let perm = first_op == "world perm";
+        let fresh = first_op == "world fresh";
         let persister: Arc<SimPersister> =
             Arc::new(KVVPersister(CloudKVVStore::new(MemoryKVVStore::new([7u8; 16])), JsonFormat));
         let clock = Arc::new(ManualClock::new(Duration::from_secs(1_600_000_000)));
@@ -157,7 +171,7 @@ impl Sim {
             allow_deep_reorgs: true,
         };
         persister.enter().unwrap();
-        let node = Arc::new(Node::new(config, &seed, vec![], services(persister.clone(), clock.clone())));
+        let node = Arc::new(Node::new(config, &seed, vec![], services(persister.clone(), clock.clone(), perm)));
         persister.new_node(&node.get_id(), &config, &*node.get_state()).unwrap();
         persister.new_tracker(&node.get_id(), &node.get_tracker()).unwrap();
         node.add_allowlist(&[]).unwrap();
@@ -171,7 +185,7 @@ impl Sim {
             }
             persister.update_tracker(&node_ctx.node.get_id(), &tracker).unwrap();
         }
-        let chan_ctx = if !perm {
+        let chan_ctx = if !perm && !fresh {
             fund_test_channel(&node_ctx, CHANNEL_VALUE)
         } else {
             // fund_test_channel, but setup_channel gets a permanent id different from id0
@@ -184,12 +198,14 @@ impl Sim {
             let ndx = tx_ctx.add_channel_outpoint(&node_ctx, &chan_ctx, CHANNEL_VALUE);
             let tx = tx_ctx.to_tx();
             chan_ctx.setup.funding_outpoint = lightning_signer::bitcoin::OutPoint { txid: tx.compute_txid(), vout: ndx };
-            let perm_id = ChannelId::new(&[0xabu8; 32]);
-            node_ctx.node.setup_channel(chan_ctx.channel_id.clone(), Some(perm_id), chan_ctx.setup.clone(), &DerivationPath::master()).expect("setup_channel");
-            let mut commit_tx_ctx = channel_initial_holder_commitment(&node_ctx, &chan_ctx);
-            let (csig, hsigs) = counterparty_sign_holder_commitment(&node_ctx, &chan_ctx, &mut commit_tx_ctx);
-            validate_holder_commitment(&node_ctx, &chan_ctx, &commit_tx_ctx, &csig, &hsigs).expect("valid holder commitment");
-            tx_ctx.sign(&node_ctx, &tx).expect("witvec");
+            let perm_id = if perm { Some(ChannelId::new(&[0xabu8; 32])) } else { None };
+            node_ctx.node.setup_channel(chan_ctx.channel_id.clone(), perm_id, chan_ctx.setup.clone(), &DerivationPath::master()).expect("setup_channel");
+            if !fresh {
+                let mut commit_tx_ctx = channel_initial_holder_commitment(&node_ctx, &chan_ctx);
+                let (csig, hsigs) = counterparty_sign_holder_commitment(&node_ctx, &chan_ctx, &mut commit_tx_ctx);
+                validate_holder_commitment(&node_ctx, &chan_ctx, &commit_tx_ctx, &csig, &hsigs).expect("valid holder commitment");
+                tx_ctx.sign(&node_ctx, &tx).expect("witvec");
+            }
             chan_ctx
         };
         // approve the two payment hashes the commitment contents use, so that commitments carrying
@@ -213,6 +229,7 @@ impl Sim {
             last_muts: vec![],
             last_pre_commit: BTreeMap::new(),
             rogue: Default::default(),
+            perm,
         }
     }
 
@@ -241,7 +258,11 @@ impl Sim {
     fn content(&self, var: u64) -> (u64, u64, Vec<HTLCInfo2>, Vec<HTLCInfo2>, u32) {
         let feerate = 1100u32;
         let fees = 20_000u64;
-        let (offered, received): (Vec<HTLCInfo2>, Vec<HTLCInfo2>) = match var % 3 {
+        let (offered, received): (Vec<HTLCInfo2>, Vec<HTLCInfo2>) = match if var >= 9 { var } else { var % 3 } {
+            // outgoing HTLCs: backed by the approved keysend, for an unapproved hash, overpaying the approved one
+            9 => (vec![HTLCInfo2 { value_sat: 10_000, payment_hash: PaymentHash([3; 32]), cltv_expiry: 3 << 16 }], vec![]),
+            10 => (vec![HTLCInfo2 { value_sat: 10_000, payment_hash: PaymentHash([5; 32]), cltv_expiry: 3 << 16 }], vec![]),
+            11 => (vec![HTLCInfo2 { value_sat: 25_000, payment_hash: PaymentHash([3; 32]), cltv_expiry: 3 << 16 }], vec![]),
             0 => (vec![], vec![]),
             1 => (vec![], vec![HTLCInfo2 { value_sat: 10_000, payment_hash: PaymentHash([3; 32]), cltv_expiry: 3 << 16 }]),
             _ => (
@@ -253,7 +274,7 @@ impl Sim {
             ),
         };
         let sum: u64 = offered.iter().chain(received.iter()).map(|h| h.value_sat).sum();
-        let to_holder = 2_000_000 - (var / 3) * 1000;
+        let to_holder = 2_000_000 - (if var >= 9 { 0 } else { var / 3 }) * 1000;
         let to_cp = CHANNEL_VALUE - to_holder - sum - fees;
         (to_holder, to_cp, offered, received, feerate)
     }
@@ -261,9 +282,18 @@ impl Sim {
     // ---- requests -------------------------------------------------------------------------
 
     pub fn validate_holder(&mut self, d: i64, good_sig: bool, var: u64) -> (Outcome, usize) {
+        self.validate_holder_with(d, good_sig, var, false)
+    }
+
+    /// `phase1`: through `validate_holder_commitment_tx` (the caller hands over the transaction and
+    /// its witness scripts) instead of the phase-2 entry point
+    pub fn validate_holder_with(&mut self, d: i64, good_sig: bool, var: u64, phase1: bool) -> (Outcome, usize) {
         let (next, ..) = self.counters();
         let n = (next as i64 + d).max(0) as u64;
         let (to_holder, to_cp, offered, received, feerate) = self.content(var);
+        // the initial holder commitment gives everything (minus fee) to the funder (us), no HTLCs
+        let (to_holder, to_cp, offered, received, feerate) =
+            if n == 0 { (CHANNEL_VALUE - 1_000, 0, vec![], vec![], 0) } else { (to_holder, to_cp, offered, received, feerate) };
         self.txn(|s| {
             // the commitment is built (and counter-signed) for number n; building needs the point,
             // which the channel only hands out for n <= next: use the helper's number juggling
@@ -275,8 +305,19 @@ impl Sim {
                 let mut other = channel_commitment(&s.node_ctx, &s.chan_ctx, build_n, feerate, to_holder - 1, to_cp + 1, offered.clone(), received.clone());
                 csig = counterparty_sign_holder_commitment(&s.node_ctx, &s.chan_ctx, &mut other).0;
             }
+            let cp_funding = s.chan_ctx.setup.counterparty_points.funding_pubkey;
             s.node().with_channel(&s.chan_ctx.channel_id, |chan| {
-                chan.validate_holder_commitment_tx_phase2(n, feerate, to_holder, to_cp, offered.clone(), received.clone(), &csig, &hsigs)
+                if phase1 {
+                    let channel_parameters = chan.make_channel_parameters();
+                    let parameters = channel_parameters.as_holder_broadcastable();
+                    let trusted = ctx.tx.as_ref().unwrap().trust();
+                    let htlcs = Channel::htlcs_info2_to_oic(&offered, &received);
+                    let scripts = build_tx_scripts(trusted.keys(), to_holder, to_cp, &htlcs, &parameters, &chan.keys.pubkeys().funding_pubkey, &cp_funding).expect("scripts");
+                    let witscripts: Vec<Vec<u8>> = scripts.iter().map(|s| s.as_bytes().to_vec()).collect();
+                    chan.validate_holder_commitment_tx(&trusted.built_transaction().transaction, &witscripts, n, feerate, offered.clone(), received.clone(), &csig, &hsigs)
+                } else {
+                    chan.validate_holder_commitment_tx_phase2(n, feerate, to_holder, to_cp, offered.clone(), received.clone(), &csig, &hsigs)
+                }
             })
         })
     }
@@ -292,6 +333,10 @@ impl Sim {
     }
 
     pub fn sign_cp_with(&mut self, d: i64, var: u64, rogue: bool) -> (Outcome, usize) {
+        self.sign_cp_full(d, var, rogue, false)
+    }
+
+    pub fn sign_cp_full(&mut self, d: i64, var: u64, rogue: bool, phase1: bool) -> (Outcome, usize) {
         let (_, _, _, cpn, _) = self.counters();
         let n = (cpn as i64 + d).max(0) as u64;
         let (a, b, offered, received, feerate) = self.content(var);
@@ -303,8 +348,22 @@ impl Sim {
         let use_rogue = if self.rogue.contains(&n) { true } else { rogue && n >= cpn };
         let point = if use_rogue { rogue_point(n) } else { cp_point(n) };
         let r = self.txn(|s| {
+            let cp_funding = s.chan_ctx.setup.counterparty_points.funding_pubkey;
+            let feerate = if n == 0 { 0 } else { feerate };
             s.node().with_channel(&s.chan_ctx.channel_id, |chan| {
-                chan.sign_counterparty_commitment_tx_phase2(&point, n, if n == 0 { 0 } else { feerate }, to_holder, to_counterparty, offered.clone(), received.clone()).map(|_| ())
+                if phase1 {
+                    let channel_parameters = chan.make_channel_parameters();
+                    let parameters = channel_parameters.as_counterparty_broadcastable();
+                    let keys = chan.make_counterparty_tx_keys(&point);
+                    let htlcs = Channel::htlcs_info2_to_oic(&offered, &received);
+                    let scripts = build_tx_scripts(&keys, to_counterparty, to_holder, &htlcs, &parameters, &chan.keys.pubkeys().funding_pubkey, &cp_funding).expect("scripts");
+                    let witscripts: Vec<Vec<u8>> = scripts.iter().map(|s| s.as_bytes().to_vec()).collect();
+                    let ctx = chan.make_counterparty_commitment_tx_with_keys(keys, n, feerate, to_holder, to_counterparty, htlcs);
+                    let tx = ctx.trust().built_transaction().transaction.clone();
+                    chan.sign_counterparty_commitment_tx(&tx, &witscripts, &point, n, feerate, offered.clone(), received.clone()).map(|_| ())
+                } else {
+                    chan.sign_counterparty_commitment_tx_phase2(&point, n, feerate, to_holder, to_counterparty, offered.clone(), received.clone()).map(|_| ())
+                }
             })
         });
         if r.0 == Outcome::Ok && use_rogue {
@@ -346,6 +405,29 @@ impl Sim {
         self.txn(|s| s.node().with_channel(&s.chan_ctx.channel_id, |chan| chan.sign_holder_commitment_tx_phase2(n).map(|_| ())))
     }
 
+    /// force-close for recovery: signs the current holder commitment and marks the channel closed
+    pub fn sign_holder_recovery(&mut self) -> (Outcome, usize) {
+        self.txn(|s| s.node().with_channel(&s.chan_ctx.channel_id, |chan| chan.sign_holder_commitment_tx_for_recovery(1000, &[]).map(|_| ())))
+    }
+
+    /// the legacy entry point that rebuilds the holder commitment from caller-supplied contents
+    /// (`same = true`: the contents of the current holder commitment)
+    pub fn sign_holder_redundant(&mut self, d: i64, same: bool) -> (Outcome, usize) {
+        let (next, ..) = self.counters();
+        let n = (next as i64 - 1 + d).max(0) as u64;
+        self.txn(|s| {
+            s.node().with_channel(&s.chan_ctx.channel_id, |chan| {
+                let info = chan.enforcement_state.current_holder_commit_info.clone().ok_or_else(|| Status::invalid_argument("no current holder commitment"))?;
+                let delta = if same { 0 } else { 1 };
+                chan.sign_holder_commitment_tx_phase2_redundant(n, info.feerate_per_kw, info.to_broadcaster_value_sat - delta, info.to_countersigner_value_sat + delta, info.offered_htlcs.clone(), info.received_htlcs.clone()).map(|_| ())
+            })
+        })
+    }
+
+    pub fn activate(&mut self) -> (Outcome, usize) {
+        self.txn(|s| s.node().with_channel(&s.chan_ctx.channel_id, |chan| chan.activate_initial_commitment().map(|_| ())))
+    }
+
     pub fn mutual_close(&mut self, good: bool) -> (Outcome, usize) {
         self.txn(|s| {
             let node = s.node();
@@ -354,7 +436,11 @@ impl Sim {
             let cp_script = ScriptBuf::from(vec![0u8, 20, 1, 1, 1, 1, 1, 1, 1, 1, 1, 1, 1, 1, 1, 1, 1, 1, 1, 1, 1, 1]);
             node.with_channel(&s.chan_ctx.channel_id, |chan| {
                 let e = &chan.enforcement_state;
-                let info = e.current_holder_commit_info.as_ref().unwrap();
+                let info = match e.current_holder_commit_info.as_ref() {
+                    Some(i) => i.clone(),
+                    // not yet activated: ask for an arbitrary split
+                    None => return chan.sign_mutual_close_tx_phase2(1_000_000, 1_000_000, &Some(holder_script.clone()), &Some(cp_script.clone()), &wallet_path).map(|_| ()),
+                };
                 let to_holder = if good { info.to_broadcaster_value_sat } else { info.to_broadcaster_value_sat / 2 };
                 let to_cp = info.to_countersigner_value_sat;
                 chan.sign_mutual_close_tx_phase2(to_holder.saturating_sub(if good { 0 } else { 0 }), to_cp, &Some(holder_script.clone()), &Some(cp_script.clone()), &wallet_path).map(|_| ())
@@ -371,7 +457,7 @@ impl Sim {
             let holder_script = make_test_funding_wallet_addr(&node, 1, SpendType::P2wpkh).script_pubkey();
             let cp_script = ScriptBuf::from(vec![0u8, 20, 1, 1, 1, 1, 1, 1, 1, 1, 1, 1, 1, 1, 1, 1, 1, 1, 1, 1, 1, 1]);
             node.with_channel(&s.chan_ctx.channel_id, |chan| {
-                let info = chan.enforcement_state.current_holder_commit_info.as_ref().unwrap();
+                let info = chan.enforcement_state.current_holder_commit_info.clone().ok_or_else(|| Status::invalid_argument("no current holder commitment"))?;
                 let to_holder = if good { info.to_broadcaster_value_sat } else { info.to_broadcaster_value_sat / 2 };
                 let to_cp = info.to_countersigner_value_sat;
                 let closing = ClosingTransaction::new(to_holder, to_cp, holder_script.clone(), cp_script.clone(), chan.setup.funding_outpoint);
@@ -546,7 +632,7 @@ impl Sim {
         let p2: Arc<dyn Persist> = Arc::new(KVVPersister(store2, JsonFormat));
         let nodes = p2.get_nodes().map_err(|e| format!("{:?}", e))?;
         let (node_id, entry) = nodes.into_iter().next().ok_or("no node in store")?;
-        Node::restore_node(&node_id, entry, &self.seed, services(p2.clone(), self.clock.clone())).map_err(|e| format!("{:?}", e))
+        Node::restore_node(&node_id, entry, &self.seed, services(p2.clone(), self.clock.clone(), self.perm)).map_err(|e| format!("{:?}", e))
     }
 
     /// Replace the running node by one restored from the store (a real restart).
@@ -555,7 +641,7 @@ impl Sim {
         let nodes = self.persister.get_nodes().unwrap();
         let (node_id, entry) = nodes.into_iter().next().unwrap();
         let p: Arc<dyn Persist> = self.persister.clone();
-        let r = std::panic::catch_unwind(std::panic::AssertUnwindSafe(|| Node::restore_node(&node_id, entry, &self.seed, services(p, self.clock.clone()))));
+        let r = std::panic::catch_unwind(std::panic::AssertUnwindSafe(|| Node::restore_node(&node_id, entry, &self.seed, services(p, self.clock.clone(), self.perm))));
         let n = self.persister.prepare().len();
         self.persister.commit().unwrap();
         match r {
@@ -644,6 +730,11 @@ pub fn exec_op(sim: &mut Sim, op: &str) -> (Outcome, usize) {
     let num = |s: &str| -> i64 { s.parse().unwrap_or(0) };
     match t.as_slice() {
         ["vh", d, sig, var] => sim.validate_holder(num(d), *sig == "g", num(var) as u64),
+        ["vh1", d, sig, var] => sim.validate_holder_with(num(d), *sig == "g", num(var) as u64, true),
+        ["scp1", d, var] => sim.sign_cp_full(num(d), num(var) as u64, false, true),
+        ["shr"] => sim.sign_holder_recovery(),
+        ["shx", d, g] => sim.sign_holder_redundant(num(d), *g == "g"),
+        ["act"] => sim.activate(),
         ["rv", d] => sim.revoke(num(d)),
         ["scp", d, var] => sim.sign_cp(num(d), num(var) as u64),
         ["scpr", d, var] => sim.sign_cp_with(num(d), num(var) as u64, true),
@@ -696,7 +787,8 @@ pub fn gen_ops(rng: &mut Rng, len: usize) -> Vec<String> {
             10 => {
                 // multi-entry allowlist removals whose last entry is absent / duplicated
                 ops.push(format!("al add {}", rng.pick(&["g", "gg", "gx"])));
-                ops.push(format!("al rm {}", rng.pick(&["gx", "xg", "g2g", "ggd", "gg"])));
+                ops.push(format!("al rm {}", rng.pick(&["gx", "xg", "g2g", "ggd", "gg", "m"])));
+                if rng.chance(1, 2) { ops.push(format!("al {} m", rng.pick(&["add", "rm", "set"]))); }
                 continue;
             }
             9 if ops.len() < 4 => {
@@ -731,6 +823,11 @@ pub fn gen_ops(rng: &mut Rng, len: usize) -> Vec<String> {
                 ops.push(format!("osign {}", if rng.chance(1, 2) { "g" } else { "b" }));
                 continue;
             }
+            11 if ops.len() < 4 => {
+                // fill the channel map (limit: three stubs), then try more
+                for d in 1..=rng.range(3, 5) { ops.push(format!("newch {}", d)); }
+                continue;
+            }
             5 => {
                 // retire and re-use channel ids
                 let a = rng.range(2, 6);
@@ -743,11 +840,16 @@ pub fn gen_ops(rng: &mut Rng, len: usize) -> Vec<String> {
         }
         let d = *rng.pick(&[0i64, 0, 0, 0, 1, -1, 2, -2]);
         let op = match rng.below(30) {
-            0..=4 => format!("vh {} {} {}", d, if rng.chance(4, 5) { "g" } else { "b" }, rng.below(9)),
+            0..=4 => format!("vh{} {} {} {}", if rng.chance(1, 4) { "1" } else { "" }, d, if rng.chance(4, 5) { "g" } else { "b" }, rng.below(12)),
             5..=8 => format!("rv {}", d),
-            9..=11 => format!("scp {} {}", d, rng.below(9)),
+            9..=11 => format!("scp{} {} {}", if rng.chance(1, 4) { "1" } else { "" }, d, rng.below(12)),
             12..=14 => format!("cpr {} {}", d, if rng.chance(3, 4) { "g" } else { "b" }),
-            15 => format!("sh {}", *rng.pick(&[0i64, 0, 1, -1])),
+            15 => match rng.below(6) {
+                0 => "shr".to_string(),
+                1 => format!("shx {} {}", *rng.pick(&[0i64, 0, 1, -1]), if rng.chance(2, 3) { "g" } else { "b" }),
+                2 => "act".to_string(),
+                _ => format!("sh {}", *rng.pick(&[0i64, 0, 1, -1])),
+            },
             16 => format!("mc{} {}", if rng.chance(1, 2) { "1" } else { "" }, if rng.chance(1, 2) { "g" } else { "b" }),
             17..=19 => format!("al {} {}", rng.pick(&["add", "set", "rm"]), rng.pick(&["g", "g2", "b", "m", "gg", "x", "gx", "xg", "g2g", "ggd"])),
             20..=21 => format!("ks {}", *rng.pick(&[1000u64, 5_000_000, 100_000_000_000, 0])),
